@@ -65,9 +65,12 @@ pub fn configs(layout: &Layout) -> Vec<RuntimeConfig> {
         Layout::Remote(cores) => {
             let job = JOB_COUNTER.fetch_add(1, Ordering::SeqCst);
             let shard = SHARD.load(Ordering::SeqCst);
+            // addresses 127.a.b.host: `a` from the shard (shards of one check run concurrently),
+            // `b` from the job counter; the base port from the process id, so that two different
+            // checks running at the same time on this machine do not meet on the same sockets
             let a = 1 + (shard % 250);
             let b = 1 + (job % 250);
-            let port = 21000 + ((job / 250) % 40) as u16 * 1000 + ((shard / 250) % 4) as u16 * 250;
+            let port = 20000 + ((std::process::id() as u64 % 400) * 100) as u16;
             let hosts: Vec<HostConfig> = cores
                 .iter()
                 .enumerate()
